@@ -253,6 +253,10 @@ func (e *c18Env) step(format string, a ...interface{}) {
 	e.steps = append(e.steps, s)
 	e.tracef("STEP %s", s)
 	e.mu.Unlock()
+	if os.Getenv("C18_CHILD") != "" {
+		// a child may die: keep its program in the output the parent classifies
+		fmt.Fprintf(os.Stderr, "c18 step: %s\n", s)
+	}
 }
 
 func (e *c18Env) inconclusive(what string) {
@@ -1005,11 +1009,17 @@ func (e *c18Env) stuckActivityPartition() string {
 	if p == nil {
 		return ""
 	}
+	if len(e.c.IDs) != 1 {
+		// with several replicas the controller's copy may be a follower; the
+		// predicate is only used where the controller is the only replica
+		return ""
+	}
+	// only fields of the partition object itself are read (the embedded
+	// protobuf is shared with the objects that replace it on pause/resume)
 	p.mu.RLock()
-	rec, paused, leader := p.recovered, p.paused, p.Leader
-	leading := p.isLeading
+	rec, paused, leading, following := p.recovered, p.paused, p.isLeading, p.isFollowing
 	p.mu.RUnlock()
-	if rec && !paused && !leading && leader == srv.config.Clustering.ServerID {
+	if rec && !paused && !leading && !following {
 		return fmt.Sprintf("server %s is metadata leader and leader of %s/0 and has applied new operations, but the partition restored from the Raft snapshot is still marked recovered=true and was never started (finishedRecovery is only run at the end of a log replay, and no FSM entry followed the snapshot); activity publishes time out",
 			srv.config.Clustering.ServerID, c18ActivityStream)
 	}
